@@ -94,12 +94,13 @@ def econsts(dev=(), **kw):
 # configurations explored per tier: (name, policy, overrides)
 def policy_configs(tier):
     q = [("tb_c2p2", "tb", dict()), ("tb_c1p3_i0", "tb", dict(C=1, I=0, P=3)),
-         ("lb_p3", "lb", dict(P=3)), ("sw_w3n2", "sw", dict()), ("sw_w4n1", "sw", dict(W=4, N=1)),
-         ("fw_w3n2", "fw", dict()), ("fw_w4n1", "fw", dict(W=4, N=1)),
-         ("ad_jump", "ad", dict(MaxOps=5, MaxT=8)), ("ad_step1", "ad", dict(MaxOps=5, MaxT=8, RStep=1, RMax=2, RInit=1))]
+         ("lb_p3", "lb", dict(P=3)), ("sw_w3n2", "sw", dict()), ("fw_w3n2", "fw", dict()),
+         ("ad_jump", "ad", dict(MaxOps=5, MaxT=8))]
     if tier == "quick":
         return q
-    t = [("tb_c3p2", "tb", dict(C=3, I=3, MaxOps=8, MaxT=12)), ("tb_c2p3_i1", "tb", dict(P=3, I=1, MaxOps=8, MaxT=12)),
+    t = [("sw_w4n1", "sw", dict(W=4, N=1)), ("fw_w4n1", "fw", dict(W=4, N=1)),
+         ("ad_step1", "ad", dict(MaxOps=5, MaxT=8, RStep=1, RMax=2, RInit=1)),
+         ("tb_c3p2", "tb", dict(C=3, I=3, MaxOps=8, MaxT=12)), ("tb_c2p3_i1", "tb", dict(P=3, I=1, MaxOps=8, MaxT=12)),
          ("lb_p2", "lb", dict(MaxOps=8, MaxT=12)), ("lb_p3_deep", "lb", dict(P=3, MaxOps=8, MaxT=12)),
          ("sw_w4n2", "sw", dict(W=4, MaxOps=8, MaxT=12)), ("sw_w3n1", "sw", dict(N=1, MaxOps=8, MaxT=12)),
          ("fw_w4n2", "fw", dict(W=4, MaxOps=8, MaxT=12)), ("fw_w3n1", "fw", dict(N=1, MaxOps=8, MaxT=12)),
